@@ -121,7 +121,7 @@ pub fn eval(expr: Node) -> Result<i64, Box<dyn error::Error>> {
                 }
                 Ok(factorial_result)
             } else {
-                Ok(0)
+                Err("The factorial function is not defined for negative integers".into())
             }
         }
         Abs(sub_expr) => eval(*sub_expr)?
